@@ -140,14 +140,27 @@ def assumption_demotes(info):
     return res < (1 << 64)
 
 
-def depth_tested(fn, cfg, call_block):
-    """is the call control dependent on a comparison of a length/size/counter with something?"""
+def depth_tested(fn, cfg, call_block, P=None, depth=0):
+    """is the call control dependent on a comparison of a length/size/counter with something -- directly, or through
+    the result of a local function that makes such a comparison (a guard extracted into a helper)?"""
     defs = Defs(fn)
-    for a in cfg.control_deps.get(call_block, ()):
+    blocks = cfg.control_deps.get(call_block, ()) if call_block is not None else [b for b in range(len(fn["blocks"]))]
+    for a in blocks:
         t = M.term(fn["blocks"][a])
         if t[0] != "switch":
             continue
         o = origin(defs, t[1])
+        if P is not None and depth < 2:
+            # the tested value is (the discriminant / a field of) the result of a local call: look inside the callee
+            src = o
+            if o[0] == "rvalue" and o[1][0] == "disc":
+                src = origin(defs, ["copy", {"l": o[1][1]["l"], "p": []}])
+            elif o[0] == "place":
+                src = origin(defs, ["copy", {"l": o[1]["l"], "p": []}])
+            if src[0] == "call" and src[1][1].get("local"):
+                g = P.fns.get(src[1][1].get("id"))
+                if g is not None and depth_tested(g, M.CFG(g), None, P, depth + 1):
+                    return True
         if o[0] == "rvalue" and o[1][0] == "bin" and o[1][1] in ("Lt", "Le", "Gt", "Ge"):
             for side in (o[1][2], o[1][3]):
                 so = origin(defs, side)
@@ -169,6 +182,7 @@ def run(ctx, chk):
     chk.assumptions += [
         "texts, vectors and counters are shorter than 2^48 (no address space holds more): usize sums of positions do not wrap",
         "the generated LR drivers keep their stack on the heap and return ParseError instead of panicking (lalrpop 0.19.12); their Assert terminators are counted, not analysed",
+        "containers filled by a generated parser through its &mut arguments (code, data, label maps) can have any length, 0 included: the grammars accept the empty program",
         "regex::Regex::new on the patterns built here (a literal; \\b<identifier>\\b) succeeds",
     ]
     sites = Sites()
@@ -338,7 +352,7 @@ def run(ctx, chk):
                     cfg = M.CFG(fn)
                     prod = next((G.prod_label(nt["name"], k) for nt in G.g["nonterminals"] for k, p in enumerate(nt["productions"])
                                  if G.main_user_action(p["action"]).get("idx") == a["idx"]), f"__action{a['idx']}")
-                    if depth_tested(fn, cfg, bi):
+                    if depth_tested(fn, cfg, bi, P):
                         chk.ok("C15.R4", prod, "nested parse is guarded by a depth/size comparison")
                     else:
                         chk.violation("C15.R4", prod.split(" = ")[0], "unbounded-native-recursion",
